@@ -119,3 +119,45 @@ Qed.
 
 Lemma dead_root_pool_mono (wumm share pool : R) : 0 <= wumm -> 0 <= share -> pool <= dead_root_to_pool wumm share pool.
 Proof. intros H1 H2. unfold dead_root_to_pool. rn. assert (0 <= 5 / 10 * wumm * share) by (apply Rmult_le_pos; [lra|exact H2]). lra. Qed.
+
+(* ==================================================================== *)
+(* pool inputs of a growth day *)
+
+(* dead leaves and stems: the two pools of the top layer gain together exactly the 70 % of the dead organs' N that the crop's N sum loses *)
+Lemma leaf_to_pools_sum (dgorgs : list R) (gehalt dt f0 a0 : R) :
+  fst (leaf_to_pools dgorgs gehalt dt f0 a0) + snd (leaf_to_pools dgorgs gehalt dt f0 a0)
+  = f0 + a0 + 7 / 10 * Rsum dgorgs * gehalt * dt.
+Proof.
+  unfold leaf_to_pools. revert f0 a0. induction dgorgs as [|d r IH]; intros f0 a0; cbn [fold_left Rsum fst snd]; [lra|].
+  rewrite IH. cbn [fst snd]. rn. lra.
+Qed.
+
+Lemma leaf_to_pools_mono (dgorgs : list R) (gehalt dt f0 a0 : R) : 0 <= gehalt -> 0 <= dt -> Forall (fun d => 0 <= d) dgorgs ->
+  f0 <= fst (leaf_to_pools dgorgs gehalt dt f0 a0) /\ a0 <= snd (leaf_to_pools dgorgs gehalt dt f0 a0).
+Proof.
+  intros Hg Ht. unfold leaf_to_pools. revert f0 a0. induction dgorgs as [|d r IH]; intros f0 a0 H; cbn [fold_left fst snd]; [lra|].
+  inversion H as [|? ? Hd Hr]; subst. destruct (IH (f0 + dec 56 2 * d * gehalt * dt) (a0 + dec 14 2 * d * gehalt * dt) Hr) as [H1 H2].
+  cbn [fst snd] in *. rn.
+  assert (0 <= d * gehalt * dt) by (apply Rmult_le_pos; [apply Rmult_le_pos|]; assumption).
+  split; [eapply Rle_trans; [|exact H1] | eapply Rle_trans; [|exact H2]]; nra.
+Qed.
+
+Lemma roots_to_pool_sum (wumm : R) (shares pool : list R) : (length shares <= length pool)%nat ->
+  Rsum (roots_to_pool wumm shares pool) = Rsum pool + 5 / 10 * wumm * Rsum shares.
+Proof.
+  revert pool; induction shares as [|s sr IH]; intros pool H; cbn [roots_to_pool Rsum]; [destruct pool; lra|].
+  destruct pool as [|p pr]; cbn in H; [lia|]. cbn [Rsum]. rewrite IH by lia. unfold dead_root_to_pool. rn. lra.
+Qed.
+
+(* the whole pool input of an ordinary growth day: fast + slow pools of all layers gain 0.7 * (N of the dead leaves and stems) + WUMM * (sum of
+   the root shares) - nothing else, nothing less *)
+Lemma pools_after_sum (dgorgs : list R) (gehalt dt wumm : R) (shares nfos naos : list R) :
+  (0 < length nfos)%nat -> (length nfos = length naos) -> (length shares <= length nfos)%nat ->
+  let '(f, a) := pools_after dgorgs gehalt dt wumm shares nfos naos in
+  Rsum f + Rsum a = Rsum nfos + Rsum naos + 7 / 10 * Rsum dgorgs * gehalt * dt + wumm * Rsum shares.
+Proof.
+  intros H0 Hl Hs. unfold pools_after. destruct nfos as [|f0 fr]; [cbn in H0; lia|]. destruct naos as [|a0 ar]; [cbn in Hl; lia|].
+  pose proof (leaf_to_pools_sum dgorgs gehalt dt f0 a0) as E.
+  destruct (leaf_to_pools dgorgs gehalt dt f0 a0) as [f0' a0']. cbn [fst snd] in E.
+  rewrite !roots_to_pool_sum by (cbn in *; lia). cbn [Rsum]. lra.
+Qed.
